@@ -26,6 +26,7 @@ import html
 import io
 import logging
 import math
+import struct
 from typing import cast, NamedTuple
 
 import flask
@@ -249,7 +250,11 @@ class MediaRequestBase(RequestHandlerBase):
                             segment_num=seg_num,
                             mod_segment=mod_segment,
                             representation=representation)
-                    except ValueError as err:
+                        for emsg in boxes:
+                            # check that every value fits into its field
+                            # of the emsg box
+                            emsg.encode()
+                    except (ValueError, ArithmeticError, struct.error) as err:
                         logging.warning('Invalid event parameters: %s', err)
                         return flask.make_response(
                             'Invalid event parameters', 400)
